@@ -53,6 +53,8 @@ def apply_real(c, op, params=None, cast=None):
             c.add(u)                                   # mode defaulted
         else:
             c.add(u, m)
+        if seed % 4 == 1:
+            U[...] = 0                                 # the caller re-uses its buffer afterwards
     elif k == "herald":
         if op[3] is None:
             c.herald(op[1], op[2])
